@@ -13,6 +13,7 @@
 package main
 
 import (
+	"syscall"
 	"bufio"
 	"encoding/json"
 	"fmt"
@@ -256,6 +257,15 @@ type workerResult struct {
 	race    bool
 }
 
+func watchdog(budget int) time.Duration {
+	if v := os.Getenv("VSIM_WATCHDOG_S"); v != "" {
+		var n int
+		fmt.Sscan(v, &n)
+		return time.Duration(n) * time.Second
+	}
+	return time.Duration(budget+240) * time.Second
+}
+
 func runWorker(bin string, env []string, outFile string, timeout time.Duration) workerResult {
 	cmd := exec.Command(bin, "-test.run", "^TestWorker$", "-test.timeout", "0", "-test.count", "1")
 	cmd.Dir = filepath.Join(verifDir, "scen")
@@ -270,6 +280,10 @@ func runWorker(bin string, env []string, outFile string, timeout time.Duration) 
 	case <-done:
 	case <-time.After(timeout):
 		if cmd.Process != nil {
+			if os.Getenv("VSIM_ONE_SEED") != "" {
+				cmd.Process.Signal(syscall.SIGQUIT)
+				time.Sleep(3 * time.Second)
+			}
 			cmd.Process.Kill()
 		}
 		<-done
@@ -339,6 +353,13 @@ func check(prop, tier string) int {
 	workDir := filepath.Join(b.scratch, "work")
 	os.MkdirAll(workDir, 0755)
 	per := (runs + np - 1) / np
+	oneSeed := uint64(0)
+	if v := os.Getenv("VSIM_ONE_SEED"); v != "" {
+		// diagnostics: exactly one case, one worker; a worker that does not
+		// finish is asked for its goroutine stacks (SIGQUIT) instead of killed
+		fmt.Sscan(v, &oneSeed)
+		np, per = 1, 1
+	}
 	results := make([]workerResult, np)
 	var wg sync.WaitGroup
 	for i := 0; i < np; i++ {
@@ -360,7 +381,12 @@ func check(prop, tier string) int {
 			env := []string{
 				"VSIM_PROP=" + prop, "VSIM_TIER=" + tier,
 				// seed of run k of worker i: base*1e6 + i + k*np  (disjoint slices, reproducible per VERIF_SEED)
-				fmt.Sprintf("VSIM_SEED_START=%d", baseSeed*1000000+uint64(i)),
+				fmt.Sprintf("VSIM_SEED_START=%d", func() uint64 {
+					if oneSeed != 0 {
+						return oneSeed
+					}
+					return baseSeed*1000000 + uint64(i)
+				}()),
 				fmt.Sprintf("VSIM_SEED_STRIDE=%d", np),
 				fmt.Sprintf("VSIM_COUNT=%d", per),
 				fmt.Sprintf("VSIM_BUDGET_S=%d", budget),
@@ -370,7 +396,7 @@ func check(prop, tier string) int {
 			if race {
 				env = append(env, "VSIM_RACE=1")
 			}
-			results[i] = runWorker(bin, env, filepath.Join(b.scratch, fmt.Sprintf("out%d.jsonl", i)), time.Duration(budget+240)*time.Second)
+			results[i] = runWorker(bin, env, filepath.Join(b.scratch, fmt.Sprintf("out%d.jsonl", i)), watchdog(budget))
 			results[i].race = race
 		}(i)
 	}
@@ -452,6 +478,9 @@ func report(prop, tier string, baseSeed uint64, pc *propCfg, b *build, results [
 		}
 		if r.timedOut {
 			infra = append(infra, fmt.Sprintf("worker %d: watchdog: no result within the deadline (seed in progress: %s)", i, r.curSeed))
+			if os.Getenv("VSIM_ONE_SEED") != "" {
+				os.WriteFile("/tmp/vsim-one-seed-stacks.txt", []byte(r.output), 0644)
+			}
 			continue
 		}
 		if !gotSummary {
